@@ -11,7 +11,9 @@ import (
 )
 
 var checks = map[string]func(run *ev.Run){
+	"C02": genlab.CheckC02,
 	"C03": genlab.CheckC03,
+	"C05": genlab.CheckC05,
 	"C06": genlab.CheckC06,
 	"C08": genlab.CheckC08,
 	"C09": genlab.CheckC09,
